@@ -299,6 +299,53 @@ class Gen(object):
         self.emit(ind, '%s = (%s(%s) + %d)' % (x, g, self.iexpr(da - {x}, 1) if (da - {x}) else 'a', r.randrange(0, 3)))
         return da
 
+    def closure_after_join(self, ind, da, x):
+        """Tail of a program: a read-only closure over `x` (re)defined at the END of a branch of varying length or in a loop
+        body — a definition that does not read `x` precedes, so the name is definitely assigned; after the join an
+        `if` doing a read-modify-write of `x`; then `x` is read ONLY through the closure, in the return expression.
+        Whether the closure's free variables stay live after the join depends on the function definition reaching it."""
+        r = self.rng
+        self.nfn += 1
+        g = 'g%d' % self.nfn
+        self.features.add('closure_after_join')
+        pad = lambda k: ['%s = %s' % (r.choice(['q1', 'q2', 'q3']), self.iexpr(da, 1)) for _ in range(k)]
+        others = sorted(v for v in da if v in self.ivars and v != x)
+        d0 = ['def %s(p):' % g, '    return (p + %s)' % (r.choice(others) if others and r.random() < 0.5 else '1')]   # does not read x
+        d1 = ['def %s(p):' % g, '    return (p + %s)' % x]
+        d2 = ['def %s(p):' % g, '    return (%s - p)' % x]
+        form = r.randrange(4)
+        if form < 2:
+            # defined before (not reading x), redefined (reading x) at the end of the LONGER branch only
+            for l in d0:
+                self.emit(ind, l)
+            long_first = form == 0
+            n_long, n_short = r.randrange(3, 7), r.randrange(0, 2)
+            self.emit(ind, 'if %s:' % self.bexpr(da, 1))
+            for l in (pad(n_long) + d1) if long_first else (pad(n_short) or ['pass']):
+                self.emit(ind + '    ', l)
+            self.emit(ind, 'else:')
+            for l in (pad(n_short) or ['pass']) if long_first else (pad(n_long) + d2):
+                self.emit(ind + '    ', l)
+        elif form == 2:
+            # both branches define it (reading x), of different lengths
+            n_long, n_short = r.randrange(3, 6), r.randrange(0, 2)
+            self.emit(ind, 'if %s:' % self.bexpr(da, 1))
+            for l in pad(n_long) + d1:
+                self.emit(ind + '    ', l)
+            self.emit(ind, 'else:')
+            for l in pad(n_short) + d2:
+                self.emit(ind + '    ', l)
+        else:
+            # defined before the loop (not reading x), redefined (reading x) in the loop body
+            for l in d0:
+                self.emit(ind, l)
+            self.emit(ind, 'for %s in %s:' % (r.choice(['i', 'j', 'k']), r.choice(['l', 'range(2)', 'range(b)'])))
+            for l in pad(r.randrange(1, 4)) + d1:
+                self.emit(ind + '    ', l)
+        self.emit(ind, 'if %s:' % self.bexpr(da - {x}, 1))
+        self.emit(ind + '    ', '%s = %s' % (x, r.choice(['(%s * 10)' % x, '(%s + 7)' % x, '(%s - a)' % x])))
+        return '(%s(%s) + %d)' % (g, self.iexpr(da - {x}, 1) if (da - {x}) else 'a', r.randrange(0, 3))
+
     def nonlocal_closure(self, ind, da):
         """At the top level of f only: a closure that WRITES a variable of f through `nonlocal`, with its own control
         flow, called at the top level.  The closure is never called from inside f's control flow (writes through called
@@ -368,7 +415,9 @@ def make_program(rng, size=10, rich=False, midreturn=False):
             da = g.nonlocal_closure(ind, da)
         da = g.stmt(ind, da, 4, False)
     ints = sorted(v for v in da if v in g.ivars)
-    if rich and rng.random() < 0.5:
+    if rich and ints and rng.random() < 0.35:
+        ret = g.closure_after_join(ind, da, rng.choice(ints))
+    elif rich and rng.random() < 0.5:
         parts = rng.sample(ints, min(len(ints), 2)) if ints else ['a']
         if g.uses_obj:
             parts.append('o.v')
